@@ -287,8 +287,11 @@ Blocks(id, s) ==
       [] id \in QuadrantPairs -> <<Blk({0}, {900}, {0}, {0})>>
       [] id = "arc:tmerc~quadrature" -> <<Blk({0}, EveryDegree89, {0}, {0})>>
       [] id \in ArcPairs -> <<Blk({0}, EveryDegree90, {0}, {0})>>
+\* longitudes (tenths of a degree) are WRITTEN in [-180, 180]: next to a central meridian of 179 the lattice crosses the date line
+W10(l) == IF l > 1800 THEN l - 3600 ELSE IF l < -1800 THEN l + 3600 ELSE l
+DLon10(l, l0) == LET d == IF l - l0 < 0 THEN l0 - l ELSE l - l0 IN IF d > 1800 THEN 3600 - d ELSE d
 Mk(id, s, t) ==
-    CASE Clause(id) = "tm" -> <<10 * s.lon0 + t[1], t[2], t[3], t[4]>>
+    CASE Clause(id) = "tm" -> <<W10(10 * s.lon0 + t[1]), t[2], t[3], t[4]>>
       [] id = "geodesic:inv" -> <<t[1], t[2], t[1] + t[3], t[2] + t[4]>>
       [] OTHER -> t
 Prod(b) == {<<w, x, y, z>> : w \in b[1], x \in b[2], y \in b[3], z \in b[4]}
@@ -299,7 +302,7 @@ SumSizes(bs, i) == IF i > Len(bs) THEN 0 ELSE Size(bs[i]) + SumSizes(bs, i + 1)
 
 \* the common domain of the two routes, as far as the statement gives it
 InDomain(id, s, p) ==
-    CASE Clause(id) = "tm" -> Abs(p[1] - 10 * s.lon0) <= 30 /\ Abs(p[2]) <= 890                  \* within three degrees of the central meridian
+    CASE Clause(id) = "tm" -> DLon10(p[1], 10 * s.lon0) <= 30 /\ Abs(p[2]) <= 890                  \* within three degrees of the central meridian
       [] id = "cart~GeoCart" -> Abs(p[2]) <= 900 /\ p[3] >= -10000 /\ p[3] <= 100000           \* up to 100 km height, poles included
       [] IsLat(id) -> Abs(p[2]) <= 900
       [] IsCurv(id) -> Abs(p[1]) <= 900 /\ p[2] >= 0 /\ p[2] < 3600
